@@ -575,11 +575,23 @@ class Workspace(AbstractContextManager):
         else:
             self._root = self.create_entity(RootGroup, save_on_creation=False)
 
-            for entity_type in ["group", "object"]:
-                uuids = self._io_call(H5Reader.fetch_uuids, entity_type, mode="r")
-
+            stored = {
+                entity_type: self._io_call(H5Reader.fetch_uuids, entity_type, mode="r")
+                for entity_type in ["group", "object"]
+            }
+            # Entities stored as the child of another one are loaded with their parent
+            nested: set = set()
+            for entity_type, uuids in stored.items():
                 for uid in uuids:
-                    if isinstance(self.get_entity(uid)[0], Entity):
+                    nested.update(
+                        self._io_call(
+                            H5Reader.fetch_children, uid, entity_type, mode="r"
+                        )
+                    )
+
+            for entity_type, uuids in stored.items():
+                for uid in uuids:
+                    if uid in nested or isinstance(self.get_entity(uid)[0], Entity):
                         continue
 
                     recovered_object = self.load_entity(uid, entity_type)
